@@ -7,4 +7,4 @@ CONSTANTS
   Recover = TRUE
   Export = FALSE
 VIEW View
-INVARIANTS TypeOK AtMostOnce ClosedWhenReturned LaterWritesClosed ExactlyOnce Alive
+INVARIANTS TypeOK AtMostOnce ClosedWhenReturned LaterWritesClosed ExactlyOnce PerConnection Alive
